@@ -195,7 +195,11 @@ def replay(sub, case):
 
 def shard(ctx, n, seeds):
     prof = dict(c03.PROFILE, subscript_whole_array_results=False, minmax_loop_counter=False,
-                extra_kinds=("uvec", "uvec", "call"))
+                extra_kinds=("uvec", "uvec", "call"),
+                # long names exercise whatever the generators do to keep identifiers short
+                real_temps=["x", "z", "acc", "a_rather_long_temporary_name_of_more_than_forty_characters"],
+                uvec_temps=["k1", "k2", "stage_value_with_a_name_longer_than_forty_five_characters_a",
+                            "stage_value_with_a_name_longer_than_forty_five_characters_b"])
     kept = []
 
     def body(case):
